@@ -1,6 +1,7 @@
 """C10 User-space map calls never overrun Python buffers
 
 domain : the operation histories of C09 (hash-map variables of every format,
+         also with an explicit byte order,
          Dict insert / get / delete / pop with and without default / iteration,
          per-CPU map reads, program-side operations in between) on randomly
          declared maps, with 1-24 possible CPUs (listed in sysfs in any cpulist
@@ -57,16 +58,26 @@ def case_strategy(draw):
     # make sure the interesting Python-side calls are there
     extra = draw(st.lists(st.sampled_from(
         ["py_hget", "py_pread", "py_dpop", "py_dpopd", "py_diter", "py_dget",
-         "py_ddel", "py_dset", "py_hset"]), min_size=3, max_size=12))
+         "py_ddel", "py_dset", "py_hset", "py_din"]), min_size=3,
+        max_size=12))
     for kind in extra:
         op = dict(draw(st.sampled_from(case["ops"])), op=kind)
         op["k"] = draw(st.integers(0, len(case["hv"]) - 1))
         if case["hv"][op["k"]]["fmt"] == "x":
             op["hval"] = abs(op["hval"]) % 10**6
         else:
-            lo, hi = c09.dsl.fmt_range(case["hv"][op["k"]]["fmt"])
+            lo, hi = c09.dsl.fmt_range(case["hv"][op["k"]]["fmt"][-1])
             op["hval"] = min(max(op["hval"], lo), hi)
         case["ops"].insert(draw(st.integers(0, len(case["ops"]))), op)
+    # formats with an explicit byte order are accepted as well (what such a
+    # variable then reads is not this property's subject)
+    for i, h in enumerate(case["hv"]):
+        if h["fmt"] != "x" and draw(st.integers(0, 5)) == 0:
+            h["fmt"] = draw(st.sampled_from("<>!=")) + h["fmt"]
+            h["default"] = 0
+            for op in case["ops"]:
+                if op["k"] == i:
+                    op["hval"] = 0
     return case
 
 
